@@ -423,6 +423,7 @@ func (f *FuncCtx) newRef(ptrT types.Type, init Val, env *Env) Val {
 	srt := f.S.SortOf(ptrT)
 	r := f.fresh("ref", srt)
 	f.emit(fmt.Sprintf("(assert (not (= %s nil_%s)))", r, srt))
+	f.allocs[srt] = append(f.allocs[srt], r)
 	dsrt, _, isDT := f.S.isDatatypeStruct(el)
 	for i := 0; i < st.NumFields(); i++ {
 		fl := st.Field(i)
